@@ -28,6 +28,8 @@ type Sym struct {
 	c      int64
 	// isBool: symbol stands for a boolean (0/1)
 	isBool bool
+	// axioms: extra defining constraints (each >= 0), e.g. "a nil slice has length 0"
+	axioms []Aff
 }
 
 func (s *Sym) String() string { return s.key }
@@ -228,6 +230,9 @@ func (a Aff) syms(into map[*Sym]bool) {
 			into[t.s] = true
 			if t.s.arg != nil {
 				t.s.arg.syms(into)
+			}
+			for _, ax := range t.s.axioms {
+				ax.syms(into)
 			}
 		}
 	}
